@@ -565,6 +565,20 @@ pub fn scenarios(tier: Tier) -> Vec<Scenario> {
             for t in (2..history.len()).step_by(3) {
                 v.push(Scenario { world: w.clone(), history: history.clone(), target: t, arm_before: vec![] });
             }
+            // a wider window, a window that does not start at 0, zstd at every window size, multi-byte records
+            for (base, count, ext, multibyte) in [(0u32, 4u32, "", false), (3, 3, "", false), (1, 3, ".gz", false), (0, 1, ".zst", false), (0, 3, ".zst", false), (0, 2, "", true)] {
+                let w = World { append, trig: Trig::Size(25), roller: RollerK::Fixed { base, count, ext }, pre: None, sizes: vec![], multibyte, restart: false };
+                let history = vec![10u32; 3 * (count as usize + 2)];
+                for t in (2..history.len()).step_by(3) {
+                    v.push(Scenario { world: w.clone(), history: history.clone(), target: t, arm_before: vec![] });
+                }
+                let w = World { append, trig: Trig::ScriptPre, roller: RollerK::Fixed { base, count, ext }, pre: None, sizes: vec![], multibyte, restart: false };
+                let history = vec![10u32; 2 * (count as usize + 2)];
+                let arms: Vec<usize> = (2..history.len()).step_by(2).collect();
+                for t in arms.clone() {
+                    v.push(Scenario { world: w.clone(), history: history.clone(), target: t, arm_before: arms.clone() });
+                }
+            }
         }
     }
     // a 1500-byte record in flight (two write calls)
@@ -589,8 +603,11 @@ pub fn run(ctx: &Ctx) -> Report {
         eprintln!("MACHINERY FAILURE: interposition self-test failed: {}", e);
         std::process::exit(2);
     }
-    let depth = ctx.tier.pick(3, 4);
-    let errnos: Vec<i32> = vec![libc::EIO, libc::ENOSPC, libc::EACCES];
+    let depth = ctx.tier.pick(3, 5);
+    let errnos: Vec<i32> = match ctx.tier {
+        Tier::Quick => vec![libc::EIO, libc::ENOSPC, libc::EACCES],
+        Tier::Thorough => vec![libc::EIO, libc::ENOSPC, libc::EACCES, libc::EMFILE, libc::EROFS],
+    };
     let scs = scenarios(ctx.tier);
     let results: Vec<(usize, u64, u64, Vec<Found>, Vec<String>)> = scs.par_iter().map(|sc| run_scenario(sc, depth, &errnos, ctx)).collect();
     let mut traces = vec![];
